@@ -456,7 +456,7 @@ func (m *Machine) chooseCond(conds []*Term, what string) int {
 // smallValues lists the distinct values a term over one byte-sized variable
 // takes on that variable's domain (nil if not applicable or more than max).
 func (m *Machine) smallValues(t *Term, max int) []uint64 {
-	v := singleByteVar(t)
+	v := m.singleByteVar(t)
 	if v == nil {
 		return nil
 	}
@@ -464,7 +464,7 @@ func (m *Machine) smallValues(t *Term, max int) []uint64 {
 	seen := map[uint64]bool{}
 	var vals []uint64
 	mod := Model{}
-	for i := 0; i < 1<<uint(v.W); i++ {
+	for i := 0; i < m.domSize(v); i++ {
 		if !d.has(i) {
 			continue
 		}
@@ -561,7 +561,10 @@ type byteDom [4]uint64
 func (d *byteDom) has(v int) bool { return d[v>>6]&(1<<uint(v&63)) != 0 }
 func (d *byteDom) del(v int)      { d[v>>6] &^= 1 << uint(v&63) }
 
-func singleByteVar(c *Term) *Term {
+// singleByteVar returns the only free variable of c when that variable has a
+// small known domain: a byte-sized input, or a bounded draw d < n with a
+// concrete n <= 256.
+func (m *Machine) singleByteVar(c *Term) *Term {
 	fv := c.FreeVars()
 	if len(fv) != 1 {
 		return nil
@@ -570,8 +573,19 @@ func singleByteVar(c *Term) *Term {
 		if v.W >= 1 && v.W <= 8 {
 			return v
 		}
+		if _, ok := m.varBound[v.Name]; ok {
+			return v
+		}
 	}
 	return nil
+}
+
+// domSize: number of candidate values of a small-domain variable.
+func (m *Machine) domSize(v *Term) int {
+	if v.W <= 8 {
+		return 1 << uint(v.W)
+	}
+	return m.varBound[v.Name]
 }
 
 func (m *Machine) domOf(v *Term) *byteDom {
@@ -579,7 +593,7 @@ func (m *Machine) domOf(v *Term) *byteDom {
 		return d
 	}
 	d := &byteDom{}
-	for i := 0; i < 1<<uint(v.W); i++ {
+	for i := 0; i < m.domSize(v); i++ {
 		d[i>>6] |= 1 << uint(i&63)
 	}
 	if m.dom == nil {
@@ -594,14 +608,14 @@ func (m *Machine) domOf(v *Term) *byteDom {
 // 3 = both occur and no other conjunct ties the variable to another one,
 // 0 = not decidable here.
 func (m *Machine) domainDecide(c *Term) int {
-	v := singleByteVar(c)
+	v := m.singleByteVar(c)
 	if v == nil {
 		return 0
 	}
 	d := m.domOf(v)
 	nt, nf := 0, 0
 	mod := Model{}
-	for i := 0; i < 1<<uint(v.W); i++ {
+	for i := 0; i < m.domSize(v); i++ {
 		if !d.has(i) {
 			continue
 		}
@@ -627,10 +641,10 @@ func (m *Machine) domainDecide(c *Term) int {
 }
 
 func (m *Machine) narrowDomain(c *Term) {
-	if v := singleByteVar(c); v != nil {
+	if v := m.singleByteVar(c); v != nil {
 		d := m.domOf(v)
 		mod := Model{}
-		for i := 0; i < 1<<uint(v.W); i++ {
+		for i := 0; i < m.domSize(v); i++ {
 			if d.has(i) {
 				mod[v.Name] = uint64(i)
 				if c.Eval(mod) != 1 {
